@@ -21,7 +21,10 @@ BASES = ["DA", "DC", "DG", "DT"]
 @st.composite
 def _strategy(draw):
     n = draw(st.integers(1, 120)) if draw(st.integers(0, 3)) else draw(st.integers(1, 6))
-    bases = [draw(st.sampled_from(BASES)) for _ in range(n)]
+    if draw(st.integers(0, 39)) == 0:
+        n = draw(st.integers(250, 330))        # plasmid-sized strands (node keys beyond the small-integer range)
+    pattern = [draw(st.sampled_from(BASES)) for _ in range(min(n, 120))]
+    bases = [pattern[i % len(pattern)] for i in range(n)]
     circular = draw(st.booleans()) and n >= 3
     route = draw(st.sampled_from(["graph", "graph", "ig", "gen_params"]))
     if route == "gen_params":
